@@ -348,6 +348,12 @@ func pushBody(t *testing.T, prop string, ordered bool) {
 				case "grow-then-slow":
 					if k >= grow && k < grow+slowN {
 						m.script, m.slow = []int{[]int{200, 201, 202, 204}[r.Intn(4)]}, []bool{true}
+						if (i/9)%2 == 0 && k%3 == 0 {
+							// ... and in every other such case some of the slow answers are
+							// refusals: a slow success and a failure are then answered in
+							// the same instant and wait in the connection's queues together
+							m.script, m.slow = []int{[]int{0, 500, 503}[r.Intn(3)], 204}, []bool{true, false}
+						}
 					}
 				case "every-status":
 					// one final status out of 100..599 per message, walking the range across cases
